@@ -32,6 +32,8 @@ class DistinguisherMixin(abc.ABC):
         if not isinstance(data, _np.ndarray):
             raise TypeError(f'data must be numpy ndarray, not {type(data)}.')
 
+        # ndarray subclasses (numpy.matrix, ...) reduce with their own semantics: work on plain arrays
+        traces, data = _np.asarray(traces), _np.asarray(data)
         if traces.shape[0] != data.shape[0]:
             raise ValueError(f'traces and data must have the same first dimension, not {traces.shape[0]} for traces and {data.shape[0]} for data.')
         if traces.ndim != 2:
